@@ -197,7 +197,11 @@ def report(chk, fails):
     f = fails[0]
     dmsg = " ".join(f.get("driver") or [])
     extra = {}
-    if "expected ST" in dmsg or "weaker than" in dmsg or "uatomic_store" in dmsg or "rcu_dereference" in dmsg:
+    if "[rcu_dereference]" in dmsg or "weaker than consume" in dmsg:
+        extra["note"] = ("a traversal no longer loads the forward pointer with rcu_dereference(): on the sequentially consistent harness and on x86 "
+                         "hardware the loaded values are the same, so no failing schedule exists at machine level; what is lost is the "
+                         "volatile/consume access that forbids the compiler to re-load or speculate the pointer (urcu/static/pointer.h)")
+    elif "expected ST" in dmsg or "weaker than" in dmsg:
         # a publishing store / rcu_dereference was weakened to a plain or weaker access: on the SC harness (and on x86 hardware) the
         # machine behaviour is unchanged; what is lost is the compiler-level ordering guarantee.  The Lean-checked run of the
         # algorithm with the publication moved before the initialisation is the failing history this change permits.
@@ -224,6 +228,15 @@ def run(chk):
         chk.fail("build", {"theorem": "harness/scen/rculist.c does not compile against /repo", "lean_error": log[-2000:]}, nofail=True)
         return
     fails = suite(chk, 120 if chk.tier == "quick" else 2500, chk.tier != "quick")
+    if not fails:
+        need = ["store_a0", "store_a1", "store_a2", "store_a3", "skip_a3", "store_a4", "store_t0", "store_t1", "store_t2", "store_t3",
+                "store_t4", "store_r0", "store_r1", "store_r2", "store_r3", "store_r4", "store_d1", "skip_d1", "store_d2", "gp_start",
+                "gp_end", "free", "deref_from_removed_node", "read_removed_node", "trav_aborted", "trav_entry", "trav_pos",
+                "trav_hentry", "trav_hentry2", "trav_hpos"]
+        missing = [k for k in need if not chk.cov["branch_histogram"].get(k)]
+        chk.cov["model_pcs_not_covered"] = missing
+        if missing:
+            chk.notes.append("coverage gap (generator, not a property failure): " + ",".join(missing))
     report(chk, fails)
 
 
